@@ -176,7 +176,15 @@ func (g *Gen) Stmt(d int) node.Type {
 			return g.poly(1)
 		}
 	}
-	switch vrt.Choice("stmt", 8) {
+	zip := func(n1, n2 int, body node.Type) node.Type {
+		return node.For{VarRefs: node.List{Elems: []node.Type{nm("k"), nm("l")}},
+			Iterators: node.List{Elems: []node.Type{call("fromto", node.Int(0), node.Int(n1)), call("fromto", node.Int(0), node.Int(n2))}}, Body: body}
+	}
+	switch vrt.Choice("stmt", 10) {
+	case 8: // lock-step loop, first iterator exhausted first
+		return zip(1, 2, g.Stmt(d-1))
+	case 9: // lock-step loop, second iterator exhausted first
+		return zip(2, 1, g.Stmt(d-1))
 	case 0:
 		return g.Stmt(0)
 	case 1:
